@@ -689,6 +689,9 @@ func processFunctionOverrides(m *ir.Module, fn *ir.Function, overrideValues map[
 			}
 		}
 		// Fill in types for new expressions that don't have a mapping from old.
+		// The new table is installed first: ResolveExpressionType reuses the types
+		// recorded in fn.ExpressionTypes, which must index the new arena by then.
+		fn.ExpressionTypes = newTypes
 		for i := range newExprs {
 			if newTypes[i].Handle == nil && newTypes[i].Value == nil {
 				// Try to resolve from the expression itself.
